@@ -23,7 +23,7 @@ CLAIMED = {
     'C03': dict(
         text='Constant product: perform_swap executed symbolically for all reserves, offers, tolerances and every fee configuration accepted by the real '
              'PoolFee::is_valid (0 and 2 extra fees): stored x\'*y\' >= x*y, gross output < reserve; same-pool round trip never profitable (2 swaps, '
-             'using the product lemma proved in the same run). Stableswap D-monotonicity is outside the claim (C19). C03.K1 carries algorithmic truncation probes (reserves above 1e18 with x*y = 1, 2 mod N) as counterexample candidates for 18-decimal truncation slips.',
+             'using the product lemma proved in the same run). Stableswap D-monotonicity is outside the claim (C19): the Curve iterations are not encoded symbolically; C03.D1 only keeps a concretely executed, natively confirmed witness of the open finding C03-stableswap-dust-round-trip (small round trips on two concrete stableswap pools). C03.K1 carries algorithmic truncation probes (reserves above 1e18 with x*y = 1, 2 mod N) as counterexample candidates for 18-decimal truncation slips.',
         ref='DESIGN.md §6 C03',
         note=TRUST + 'Round trips through different pools are price arbitrage and are not asserted.'),
     'C04': dict(
@@ -31,6 +31,7 @@ CLAIMED = {
              'collector / burn amounts equal floor shares of the gross output, nobody else\'s balance changes, only transfers and burns; receiver variants '
              '(none, valid, invalid address). Routed swaps (4 route shapes incl. routes that return to the offer denom; pricing kernel abstracted): each hop '
              'offers exactly the previous hop output, only the final output reaches the receiver, per-denom protocol / burn fees and reserve backing are exact. '
+             'Stableswap pools with equal and different decimals (Newton solver abstracted): every fee is the floor share of the gross output the Swap reports, transfers match the reported amounts. '
              'Counterexamples are replayed natively (predicted balances and reserves; routes: the route against its hops sent one by one).',
         ref='DESIGN.md §6 C04',
         note=TRUST + 'Addresses and denoms are concrete labels; amounts are symbolic.'),
@@ -94,9 +95,10 @@ CLAIMED = {
         text='assert_max_slippage and assert_slippage_tolerance executed symbolically: accepted iff the documented predicate holds (default 1%, cap 50%, '
              'belief price, zero price refused), monotone in the tolerance (relational), proportional deposits accepted under every valid tolerance, '
              'tolerance > 1 refused. Handler level: an executed Swap message is within the caller / default tolerance against the pre-trade spot price and, with a '
-             'belief price, within tolerance of offer / belief measured on what the trader receives.',
+             'belief price, within tolerance of offer / belief measured on what the trader receives. Routed swaps: minimum_receive boundary (D accepted, D + 1 refused, three runs '
+             'from one snapshot). Stableswap deposits with a tolerance: the real handler on three concrete pools (Curve iterations executed on concrete values), tolerance symbolic.',
         ref='DESIGN.md §6 C13',
-        note=TRUST + 'Stableswap deposit tolerance and mixed-decimals slippage units are tracked as findings (see DESIGN.md).'),
+        note=TRUST + 'Open known finding C13-stableswap-deposit-tolerance (every stableswap deposit stating a tolerance <= 100% is refused); the mixed-decimals slippage units were repaired (fix eb3d56f).'),
     'C14': dict(
         text='Relational obligation: from one symbolic funded two-asset pool the real single-asset chain (execute -> self Swap sub-message -> reply -> self '
              'ProvideLiquidity) and the manual sequence Swap(half) + ProvideLiquidity(half, proceeds) are both executed; reserves, LP minted to the sender, fees and '
